@@ -47,6 +47,8 @@ def build(spec):
     kind = spec[0]
     if kind == "Shape":
         return jworld.Shape(spec[1])
+    if kind == "Temp":
+        return jworld.__dict__["Temp_original"](spec[1])
     if kind == "Poly":
         return jworld.Poly(spec[1], spec[2])
     if kind == "Tri":
@@ -214,6 +216,12 @@ def generate(rng, cfg: Dict) -> Dict:
             else:
                 value = _mutate_string(c, real)
             faults.append({"pos": pi, "kind": kind, "value": value})
+    if c.chance(0.08):
+        # the tag is fine at first; then the name it resolves to is deleted or rebound; then the same document again
+        change = c.pick(["delete", "function", "plain-class", "constant"])
+        doc = c.pick([["Temp", "x"], ["list", [["Temp", "y"], ["Shape", "s"]]], ["Group", [["Temp", "z"]], None, None]])
+        reads = [{"doc": doc, "faults": []}, {"env": change}, {"doc": doc, "faults": [], "stale_env": change}]
+        return {"property": "C19", "machine": "json_sim", "mode": "environment", "doc": doc, "faults": [], "reads": reads, "fail_modules": [FAILING_MODULE]}
     reads = [{"doc": doc, "faults": faults}]
     # a history of reads in one process: the same corrupted document again, or the same bad tag in another document
     for _ in range(c.weighted([(0, 3), (1, 3), (2, 2), (3, 1)])):
@@ -330,17 +338,56 @@ def execute(scenario: Dict) -> Dict:
     verdicts: List[Dict] = []
     reads = scenario.get("reads") or [{"doc": scenario["doc"], "faults": scenario["faults"]}]
     nontrivial = False
+    jworld.__dict__.setdefault("Temp_original", jworld.Temp)
     for n, read in enumerate(reads):
+        if "env" in read:
+            counters.inc("fault.environment_change")
+            if read["env"] == "delete":
+                jworld.__dict__.pop("Temp", None)
+            elif read["env"] == "function":
+                jworld.Temp = jworld.helper_function
+            elif read["env"] == "plain-class":
+                jworld.Temp = jworld.Plain
+            else:
+                jworld.Temp = jworld.CONSTANT
+            continue
+        if read.get("stale_env"):
+            applied = _stale_read(read, n, log, counters, verdicts)
+            nontrivial = nontrivial or applied
+            continue
         applied = _one_read(dict(scenario, doc=read["doc"], faults=read["faults"]), n, log, counters, verdicts)
         nontrivial = nontrivial or applied
         if verdicts:
             break
     if len(reads) > 1:
         counters.inc("fault.repeated_read", len(reads) - 1)
-    counters.inc("ops", sum(len(r["faults"]) for r in reads))
-    shape = kernel.short_hash([[[r["doc"], [[f["pos"], f["kind"], f["value"] if f["value"] != DELETE else "<deleted>"] for f in r["faults"]]] for r in reads], scenario.get("fail_modules")])
+    counters.inc("ops", sum(len(r.get("faults", [])) for r in reads))
+    shape = kernel.short_hash([[[r.get("doc"), r.get("env"), [[f["pos"], f["kind"], f["value"] if f["value"] != DELETE else "<deleted>"] for f in r.get("faults", [])]] for r in reads], scenario.get("fail_modules")])
     counters.inc("runs")
     return {"verdicts": verdicts, "digest": log.digest(), "counters": dict(counters), "nontrivial": nontrivial, "shape": shape}
+
+
+def _stale_read(read: Dict, read_no: int, log, counters, verdicts) -> bool:
+    """Read a document whose (unchanged) tag no longer names a deserialisable class: it must fail as any such tag does."""
+    value = build(read["doc"])
+    stored = json.loads(json.dumps(js.to_json(value)))
+    admissible = {"delete": ["ClassNotFoundError"], "function": ["ClassNotDeserializableError", "ClassNotFoundError"],
+                  "plain-class": ["ClassNotDeserializableError"], "constant": ["ClassNotDeserializableError", "ClassNotFoundError"]}[read["stale_env"]]
+    try:
+        result_value = js.from_json(stored)
+        outcome, exc = "returned", None
+    except BaseException as e:
+        outcome, exc = "raised", e
+    log.add("stale-read", read["stale_env"], outcome, type(exc).__name__ if exc is not None else None)
+    feats = dict(fault_kind="environment:" + read["stale_env"], why="name-rebound-after-first-read", read_no=read_no)
+    if outcome == "returned":
+        verdicts.append(kernel.verdict("C19.wrong-object", f"after the name the tag resolves to was changed ({read['stale_env']}) the document was still deserialised into {describe(result_value)}", exception=None, **feats))
+    elif not isinstance(exc, js.JSONSerializationError):
+        verdicts.append(kernel.verdict("C19.escape", f"after the name the tag resolves to was changed ({read['stale_env']}) from_json raised {type(exc).__name__}: {exc}", exception=type(exc).__name__, **feats))
+    elif type(exc).__name__ in E and type(exc).__name__ not in admissible:
+        verdicts.append(kernel.verdict("C19.wrong-error", f"after the name the tag resolves to was changed ({read['stale_env']}) from_json raised {type(exc).__name__} (admissible: {admissible})", exception=type(exc).__name__, **feats))
+    counters.inc("reads")
+    return True
 
 
 def _one_read(scenario: Dict, read_no: int, log, counters, verdicts) -> bool:
